@@ -7,3 +7,6 @@ mod simple_responder;
 pub use oneshot_resolver::OneShotMdnsResolver;
 pub use service_discovery::ServiceDiscovery;
 pub use simple_responder::SimpleMdnsResponder;
+
+#[cfg(simple_dns_verif)]
+pub(crate) use service_discovery::verif_add_response;
